@@ -9,7 +9,10 @@ import (
 
 // C19 — access controls and enablement are enforced on every path.
 
-var c19Mutating = []string{"addfact", "remfact", "addrule", "remrule", "enable", "setparents", "clear", "event-mutating"}
+// (prop-*: AddFact of a property fact - the parent set, a rule's disabled flag, the location's own
+// enabled flag and write key are facts too, and writing them through the facts API is a write like any other)
+var c19Mutating = []string{"addfact", "remfact", "addrule", "remrule", "enable", "setparents", "clear", "event-mutating",
+	"prop-parents", "prop-disabled", "prop-enabled", "prop-writekey", "prop-custom"}
 var c19Revealing = []string{"getfact", "search", "getrule", "searchrules", "listrules", "statesize", "query", "event", "event-trigger", "search-inherited", "searchrules-inherited", "listrules-inherited"}
 // (parentread / parentdisabled: L itself is open, its parent P is protected: what L inherits is the parent's to guard)
 var c19States = []string{"none", "write", "read", "both", "readonly", "disabled", "parentread", "parentdisabled"}
@@ -77,6 +80,16 @@ func c19Op(kind, caller string, i int) h.Op {
 	switch kind {
 	case "addfact":
 		op = h.Op{K: "addfact", Id: "f3", J: map[string]interface{}{"secret": "three", "n": fmt.Sprintf("z%d", i)}}
+	case "prop-parents":
+		op = h.Op{K: "addfact", J: map[string]interface{}{"!parents": []interface{}{"P"}}}
+	case "prop-disabled":
+		op = h.Op{K: "addfact", J: map[string]interface{}{"id": "r1", "!disabled": true}}
+	case "prop-enabled":
+		op = h.Op{K: "addfact", J: map[string]interface{}{"!enabled": "yes"}}
+	case "prop-writekey":
+		op = h.Op{K: "addfact", J: map[string]interface{}{"!writeKey": "wk"}}
+	case "prop-custom":
+		op = h.Op{K: "addfact", J: map[string]interface{}{"id": "f1", "!colour": fmt.Sprintf("c%d", i)}}
 	case "remfact":
 		op = h.Op{K: "remfact", Id: "f1"}
 	case "addrule":
@@ -133,7 +146,7 @@ func c19Base(state string) *h.Plan {
 	p.Cfg["state"] = state
 	p.Cfg["storage"] = "mem"
 	p.Cfg["locs"] = toIface([]string{"L", "P"})
-	p.Cfg["ids"] = toIface([]string{"f1", "f2", "f3", "r1", "r2", "rm", "byaction", "pf", "pr"})
+	p.Cfg["ids"] = toIface([]string{"f1", "f2", "f3", "r1", "r2", "rm", "byaction", "pf", "pr", "!f1.colour"})
 	p.Cfg["patterns"] = []interface{}{map[string]interface{}{"secret": "?s"}, map[string]interface{}{"rule": "?r"}, map[string]interface{}{"made": "?m"}}
 	p.Cfg["events"] = []interface{}{map[string]interface{}{"ping": "a"}}
 	return p
